@@ -6,6 +6,7 @@ CONSTANTS
   ScanAtomic = FALSE
   StopWhenSettled = FALSE
   Overlap = "never"
+  AllowAging = TRUE
   Emit = FALSE
 INVARIANTS Safety
 VIEW MCView
